@@ -148,7 +148,10 @@ def cases(draw):
     cand = [("file", p) for p in sorted(files)] + [("dir", d) for d in dirs if not G.hidden(d)] + [("dir", "."), ("absdir", ".")] + [("absdir", d) for d in dirs[:3] if not G.hidden(d)]
     ways = [draw(st.sampled_from(cand)) for _ in range(nways)]
     ways = [list(w) for w in dict.fromkeys(ways)]
-    return {"files": filled, "option": opt, "yml": yml, "gitignore": gi, "ways": ways}
+    anc = None
+    if gi is None and draw(st.booleans()):
+        anc = draw(wild_patterns(files, dirs)) + ["*.py", "src/", "lib/"][: draw(st.integers(0, 3))]
+    return {"files": filled, "option": opt, "yml": yml, "gitignore": gi, "ancestor_gitignore": anc, "ways": ways}
 
 
 def _materialise(files):
@@ -165,6 +168,9 @@ def run_case(case):
     if case["gitignore"] is not None:
         files[".gitignore"] = "".join(p + "\n" for p in case["gitignore"])
     with tree.temp_tree(files) as root:
+        if case.get("ancestor_gitignore"):
+            # a .gitignore ABOVE the codebase root belongs to neither command's view of the codebase
+            (root.parent / ".gitignore").write_text("".join(p + "\n" for p in case["ancestor_gitignore"]))
 
         def do_scan():
             cli.reset_config()
@@ -276,6 +282,8 @@ def gen(col, seed, n):
             labels.append("ambiguous-extension")
         if any(isinstance(c, dict) for c in files.values()):
             labels.append("latin1-file")
+        if case.get("ancestor_gitignore"):
+            labels.append("gitignore-above-the-root")
         col.eval(case, nontrivial=has_excl_or_hidden and has_finding, labels=labels)
         col.samples = [s if not (isinstance(s, dict) and isinstance(s.get("files"), dict)) else dict(s, files=sorted(s["files"])) for s in col.samples]
 
